@@ -21,6 +21,7 @@ class Boundary(object):
         self.default_solver = None     # when set, injected as solver= for solves that do not name one
         self.skip_solve = False        # translation-validation mode: never call the solver
         self.fault = None              # callable(rec, inner_index) -> None | "none" | "raise" | "inaccurate"
+        self.pre_solve = None          # callable(pep): edit the model right before PEP.solve runs (equivalent reformulations)
         self.after_generate = None     # callable(wrapper, rec)
         self.after_heuristic = None    # callable(wrapper, rec, weight): translation validation of the heuristic objective
         self._orig = {}
@@ -40,6 +41,8 @@ class Boundary(object):
         def solve(pep, *a, **kw):
             if mon.default_solver is not None and kw.get("solver") is None:
                 kw["solver"] = mon.default_solver
+            if mon.pre_solve is not None:
+                mon.pre_solve(pep)
             rec = {"k": len(mon.records), "opts": dict(kw), "args": a, "sent": [], "inner": [],
                    "assign_after_inner": None, "prepare": None, "heuristic_calls": 0, "objective": None,
                    "wrapper_cls": None, "pep": pep}
